@@ -177,4 +177,29 @@ theorem run_fuel_mono (hw : Bool) (a : Nat) (prog : List Instr) (fuel k : Nat) (
             rw [ih s' pc' h]
           · rfl
 
+/-- a whole subroutine of application `a` leaves every other application's state unchanged -/
+theorem run_apps_other (hw : Bool) (a : Nat) (prog : List Instr) (fuel : Nat) (s : State) (pc : Int)
+    (b : Nat) (hb : b ≠ a) : (run hw a prog fuel s pc).s.apps b = s.apps b := by
+  induction fuel generalizing s pc with
+  | zero => rw [run_zero]; split <;> rfl
+  | succ n ih =>
+    unfold run
+    split
+    · rfl
+    · split
+      · rfl
+      · split
+        · rfl
+        · rename_i i _
+          have := step_apps_other hw a i s pc b hb
+          split
+          · rename_i s' pc' hs
+            rw [hs] at this
+            simp only []
+            rw [ih s' pc']; exact this
+          · rename_i s' f hs
+            rw [hs] at this
+            exact this
+
+
 end NQ.Exec
